@@ -21,10 +21,10 @@ TraceCall(e) ==
       hits == {x \in cache : x.key = key} IN
   IF e.hit
   THEN /\ hits # {}
-       /\ last' = [kind |-> "hit", returned |-> (CHOOSE x \in hits : TRUE).val, recomputed |-> TrueVal(fn, args, alpha)]
+       /\ last' = [kind |-> "hit", returned |-> Handed(CHOOSE x \in hits : TRUE), recomputed |-> TrueVal(fn, args, alpha)]
        /\ UNCHANGED <<alpha, cache, dirty>>
   ELSE /\ last' = [kind |-> "miss", returned |-> TrueVal(fn, args, alpha), recomputed |-> TrueVal(fn, args, alpha)]
-       /\ cache' = (cache \ hits) \cup {[key |-> key, val |-> TrueVal(fn, args, alpha)]}
+       /\ cache' = (cache \ hits) \cup {[key |-> key, val |-> TrueVal(fn, args, alpha), uses |-> 0]}
        /\ UNCHANGED <<alpha, dirty>>
 TraceNext == /\ l <= Len(Events) /\ l' = l + 1
              /\ LET e == Events[l] IN
